@@ -18,8 +18,8 @@ def airsym_bin():
 
 def run_jobs(jobs, tag="jobs"):
     os.makedirs(os.path.join(WORK, "airsym"), exist_ok=True)
-    jf = os.path.join(WORK, "airsym", f"{tag}.in.json")
-    of = os.path.join(WORK, "airsym", f"{tag}.out.json")
+    jf = os.path.join(WORK, "airsym", f"{tag}.{os.getpid()}.in.json")
+    of = os.path.join(WORK, "airsym", f"{tag}.{os.getpid()}.out.json")
     with open(jf, "w") as f:
         json.dump({"jobs": jobs}, f)
     if os.path.exists(of):
@@ -31,6 +31,8 @@ def run_jobs(jobs, tag="jobs"):
         raise RuntimeError("airsym failed (a panic here usually means the constraint code branched on a symbolic value)")
     with open(of) as f:
         res = json.load(f)["results"]
+    os.remove(jf)
+    os.remove(of)
     log(f"[airsym] {len(jobs)} jobs in {time.time()-t0:.2f}s")
     return res
 
